@@ -5,7 +5,10 @@ import hashlib
 import json
 import os
 import sys
+import re
 import time
+
+AUTO_GUARD = re.compile(r"\.defined\.den\d+$")   # obligations the engine generates per division (not written in a contract)
 
 VERIF = os.path.dirname(os.path.dirname(os.path.abspath(__file__)))
 BASELINE = os.path.join(VERIF, "baseline_obligations.json")
@@ -177,6 +180,10 @@ def finish(prop, tier, seed, repo, hs, results, extra, wall, args):
         for n in baseline:
             if n not in names_now and not any(v["obligation"].startswith(n.rsplit(".", 1)[0]) for v in violations):
                 if tier == "quick" and baseline[n].get("tier") == "thorough":
+                    continue
+                if AUTO_GUARD.search(n):
+                    # a division guard the engine generated for a division that is no longer in the code: nothing of the contract is lost
+                    notes.add("division guard of the baseline not generated on this tree (the division is gone): " + n)
                     continue
                 undecided.append({"obligation": n, "reason": "obligation of the baseline was not generated on this tree (contract stale or code left the path)"})
     # known findings
